@@ -316,12 +316,12 @@ Section Confined.
     - rewrite (stat_ino _ _ _ H). exact Hd.
   Qed.
 
-  Lemma create_then_lookup_good : forall cf fi s uid gid parent n call rp io s',
+  Lemma create_then_lookup_good : forall s uid gid parent n call rp io s',
     Inv s ->
     (forall c h d r h', closedE h -> inE d -> call c h d = (r, h') -> conf h h') ->
-    create_then_lookup cf fi s uid gid parent n call = (rp, io, s') -> good s s' /\ reply_ok rp.
+    create_then_lookup s uid gid parent n call = (rp, io, s') -> good s s' /\ reply_ok rp.
   Proof.
-    intros cf fi s uid gid parent n call rp io s' HI Hcall H. unfold create_then_lookup in H.
+    intros s uid gid parent n call rp io s' HI Hcall H. unfold create_then_lookup in H.
     destruct (assoc parent (p_inodes s)) as [d|] eqn:Ha;
       [|inversion H; subst; split; [apply good_refl; exact HI | exact I]].
     pose proof (inode_inE _ _ _ HI Ha) as Hd.
@@ -329,7 +329,7 @@ Section Confined.
     assert (Hg1 : good s s1).
     { destruct (with_creds_cases _ _ _ _ _ _ _ Hw) as [[c [-> _]] | [c2 [s2 [c3 [Hb ->]]]]].
       - apply good_creds_r. apply good_refl. exact HI.
-      - apply good_creds_r. cbn in Hb. destruct (c_ifh cf && fi && negb (euid c2 =? 0)); [inversion Hb; subst; exact (good_refl s HI)|].
+      - apply good_creds_r. cbn in Hb.
         destruct (call c2 (p_host s) (id_host d)) as [r0 h'] eqn:Hc0. inversion Hb; subst.
         apply good_with_host_c; [exact HI|]. eapply Hcall; [apply HI | exact Hd | exact Hc0]. }
     destruct r as [x|e].
@@ -422,12 +422,12 @@ Section Confined.
       cbn. apply (do_getattr_ok _ _ _ _ _ (proj1 G) Hg).
     - (* mkdir *)
       destruct (validate cf n); [inv4 H; done_refl HI|].
-      match type of H with context [create_then_lookup ?a0 ?b0 ?a ?b ?c ?d ?e ?f] => destruct (create_then_lookup a0 b0 a b c d e f) as [[rp0 io0] s0] eqn:Hc end.
+      match type of H with context [create_then_lookup ?a ?b ?c ?d ?e ?f] => destruct (create_then_lookup a b c d e f) as [[rp0 io0] s0] eqn:Hc end.
       inv4 H. eapply create_then_lookup_good; [exact HI | | exact Hc].
       intros c h d r h' Hcl Hd Hcall. eapply (proj1 (sys_mkdirat_conf _ _ _ _ _ _ _ _ _ _ Hcl Hd Hcall)).
     - (* mknod *)
       destruct (validate cf n); [inv4 H; done_refl HI|].
-      match type of H with context [create_then_lookup ?a0 ?b0 ?a ?b ?c ?d ?e ?f] => destruct (create_then_lookup a0 b0 a b c d e f) as [[rp0 io0] s0] eqn:Hc end.
+      match type of H with context [create_then_lookup ?a ?b ?c ?d ?e ?f] => destruct (create_then_lookup a b c d e f) as [[rp0 io0] s0] eqn:Hc end.
       inv4 H. eapply create_then_lookup_good; [exact HI | | exact Hc].
       intros c h d r h' Hcl Hd Hcall. eapply (proj1 (sys_mknodat_conf _ _ _ _ _ _ _ _ _ _ _ Hcl Hd Hcall)).
     - (* create *)
@@ -466,14 +466,14 @@ Section Confined.
             split; [exact Hg | exact Hhi]. }
       destruct G3 as [G3 Hhi].
       assert (G : good s s3) by (eapply good_trans; [exact G1 | eapply good_trans; [exact G2 | exact G3]]).
-      destruct rf as [[hi fl]|e]; [|inv4 H; split; [exact G | exact I]].
+      destruct rf as [[hi fl]|e]; [|inv4 H; split; [eapply good_trans; [exact G | apply forget_one_good; exact (proj1 G)] | exact I]].
       destruct (c_no_open cf); [inv4 H; split; [exact G | exact HaE]|].
       destruct (insert_handle s3 (new_hdata f hi fl flags)) as [hk s4] eqn:Hih. inv4 H.
       split; [|exact HaE]. eapply good_trans; [exact G|].
       apply (insert_handle_good s3 (new_hdata f hi fl flags) _ _ (proj1 G) (Hhi hi fl eq_refl) Hih).
     - (* symlink *)
       destruct (validate cf n); [inv4 H; done_refl HI|].
-      match type of H with context [create_then_lookup ?a0 ?b0 ?a ?b ?c ?d ?e ?f] => destruct (create_then_lookup a0 b0 a b c d e f) as [[rp0 io0] s0] eqn:Hc end.
+      match type of H with context [create_then_lookup ?a ?b ?c ?d ?e ?f] => destruct (create_then_lookup a b c d e f) as [[rp0 io0] s0] eqn:Hc end.
       inv4 H. eapply create_then_lookup_good; [exact HI | | exact Hc].
       intros c h d r h' Hcl Hd Hcall. eapply (proj1 (sys_symlinkat_conf _ _ _ _ _ _ _ _ _ _ Hcl Hd Hcall)).
     - (* link *)
